@@ -163,8 +163,56 @@ def check_seal_open(rep, facts, rule='R01.3'):
               'seal: %s ; open: %s' % (ws, wo), 'identical AEAD object, nonce helper and arguments, aad/buffer parameters, increment function', where(s.a, s.point))
 
 
+def check_mode_siblings(rep, facts, rule='R01.5'):
+    """the sender's and the receiver's mode enums answer mode_id / get_psk_bytes / get_psk_id identically, variant by variant"""
+    from .. import booldec
+    from . import modes
+    from .common import impl_bodies
+    n = 0
+    for name in ('mode_id', 'get_psk_bytes', 'get_psk_id'):
+        tabs = {}
+        for b in impl_bodies(facts, 'op_mode::OpMode', name):
+            if b.default_of:
+                continue
+            a = get_an(facts, b.key)
+            path, adt = modes.adt_of_self(facts, b.impl_of['self_ty'])
+            role = 'sender' if path.endswith('OpModeS') else ('receiver' if path.endswith('OpModeR') else path)
+            try:
+                t = booldec.variant_table(a, modes.variants_of(adt), lambda s: s == ('load', ('param', 1), ()))
+                # the bundle sits at a different field index in the two enums only if their shapes differ; compare by field *type* position
+                norm = {}
+                for v, rows in t.items():
+                    vals = []
+                    for rt, site in rows:
+                        x = strip_sites(rt)
+                        if x[0] == 'load' and x[1] == ('param', 1):
+                            x = ('load', ('param', 1), tuple(e for e in x[2] if not (e[0] == 'f' and e[1].isdigit())))
+                        vals.append(x)
+                    norm[v] = vals
+                tabs[role] = norm
+            except booldec.Undecidable as e:
+                tabs[role] = 'depends on more than the variant: %s' % e
+        if set(tabs) != {'sender', 'receiver'}:
+            rep.anchor_lost(rule, 'OpMode::%s impls for both roles' % name, 'sender and receiver', sorted(tabs))
+            continue
+        n += 1
+        same = tabs['sender'] == tabs['receiver'] and not isinstance(tabs['sender'], str)
+        rep.check(same, rule, 'op_mode::OpMode::%s' % name, 'sender-receiver-agree',
+                  'sender: %s ; receiver: %s' % (_tab(tabs['sender']), _tab(tabs['receiver'])),
+                  'both roles map every mode variant to the same value (otherwise matching setups derive different keys)', None)
+    return n
+
+
+def _tab(t):
+    if isinstance(t, str):
+        return t
+    return {v: [pp(x)[:40] for x in xs] for v, xs in t.items()}
+
+
 def run(ctx):
     rep, facts = ctx.rep, ctx.facts
+    n5 = check_mode_siblings(rep, facts)
+    rep.floor('R01.5', 'mode accessor pairs', n5, 3)
     feats = facts.meta.get('features', [])
     alloc = 'alloc' in feats or 'std' in feats
     check_setups(rep, facts)
